@@ -103,7 +103,7 @@ def genTitle : G (Option Bytes) := do
 def genLinkCh (style : LinkStyle) : G LinkCh := do
   let an ← chance 30
   let tq ← below 3
-  let lv ← below 6
+  let lv ← below 9
   let sp ← below 2
   let en ← chance 30
   return { style := style, angle := an, titleQ := tq, labelVar := lv, sp := sp, ent := en }
@@ -140,7 +140,7 @@ def genLabel : G Bytes := do
   if ← chance 40 then return base ++ [32] ++ (← pickL labelWords) else return base
 
 def addDef (label dest : Bytes) (title : Option Bytes) : G Unit := do
-  let lv ← below 6
+  let lv ← below 9
   let an ← chance 30
   let tq ← below 3
   let tn ← chance 25
